@@ -190,12 +190,15 @@ func (nw *netw) catchUp(r *rnode, now time.Time) bool {
 	for k := 0; k < n; k++ {
 		r.redoCur = (r.redoCur + 1) % n
 		p := nw.pool[r.redoCur]
-		if p.H != h || p.Src == r.idx {
+		if p.H != h {
 			continue
 		}
+		// (also what the node itself once sent: a restarted proposer has lost its
+		// own block and gets the parts back from its peers)
 		ds := p.dst[r.idx]
-		if ds == nil || ds.delivered < 1 {
-			continue
+		if ds == nil {
+			ds = &dstState{}
+			p.dst[r.idx] = ds
 		}
 		want := false
 		if dec != nil {
@@ -208,6 +211,9 @@ func (nw *netw) catchUp(r *rnode, now time.Time) bool {
 		}
 		r.lastRedo = now
 		r.redoN[h]++
+		if ds.delivered < 0 {
+			ds.delivered = 0
+		}
 		nw.evDeliver(r, p, nil)
 		return true
 	}
